@@ -47,7 +47,7 @@ def _source(sym, R, nsym):
     return rows
 
 
-def _run(sym, mk, L, nits, what, kf=None):
+def _run(sym, mk, L, nits, what, kf=None, renew0=False):
     """mk() -> a fresh view over a fresh identical source."""
     ref = [_norm(r) for r in mk()]            # solo pass = the oracle
     check(len(ref) >= 0, 'solo pass')
@@ -59,8 +59,12 @@ def _run(sym, mk, L, nits, what, kf=None):
     last = None            # slot whose iterator touched the view's shared state most recently
     fresh_it = [False] * nits      # slot holds an iterator that was created and never advanced
     for step in range(L):
-        act = sym.choice('s%d' % step, 2 * nits - 1)       # next_0..next_{n-1}, new_1..new_{n-1}
-        i, kind = (act, 0) if act < nits else (act - nits + 1, 1)
+        if renew0:
+            act = sym.choice('s%d' % step, 2 * nits)       # next_0..next_{n-1}, new_0..new_{n-1}
+            i, kind = (act, 0) if act < nits else (act - nits, 1)
+        else:
+            act = sym.choice('s%d' % step, 2 * nits - 1)   # next_0..next_{n-1}, new_1..new_{n-1}
+            i, kind = (act, 0) if act < nits else (act - nits + 1, 1)
         # schedules that differ only by no-ops are explored once (pruned, not passed)
         if kind == 0:
             assume(not done[i])
@@ -103,16 +107,16 @@ def _run(sym, mk, L, nits, what, kf=None):
           what + ': a second later pass differs', trace, fresh2, ref)
 
 
-def catalogue_view(sym, name, R, L, nits, nsym):
+def catalogue_view(sym, name, R, L, nits, nsym, renew0=False):
     make = ALL_BY_NAME[name][1]
     kind = ALL_BY_NAME[name][2].get('kind', 'table')
     rows = _source(sym, R, nsym)
     with pickle_stub(), private_tempdir() as td, default_tempdir(td), clock_stub([1]):
         if kind == 'pair':
             idx = sym.choice('member', 2)
-            _run(sym, lambda: make([list(HDR)] + [list(r) for r in rows])[idx], L, nits, '%s[%d]' % (name, idx))
+            _run(sym, lambda: make([list(HDR)] + [list(r) for r in rows])[idx], L, nits, '%s[%d]' % (name, idx), renew0=renew0)
         else:
-            _run(sym, lambda: make([list(HDR)] + [list(r) for r in rows]), L, nits, name)
+            _run(sym, lambda: make([list(HDR)] + [list(r) for r in rows]), L, nits, name, renew0=renew0)
 
 
 def _write_sources(td, rows):
@@ -200,7 +204,7 @@ def random_view(sym, kind, R, L, nits):
 # --------------------------------------------------------------------------
 BOUNDS = {
     'quick': '2 iterators over one view; schedule of L symbolic steps, each one of {advance it_i, abandon it_i and create a new '
-             'one}; L=4 over 2 data rows for streaming views, L=6 (+1 symbolic cell) for views that keep state between '
+             'one (any iterator for the stateful core views, the second one otherwise)}; L=4 over 2 data rows for streaming views, L=6 (+1 symbolic cell) for views that keep state between '
              'iterators (sorts with memory/file cache, sort-backed operators, hash joins, cache(n), fromdicts(generator), '
              'random tables); a fresh pass afterwards',
     'thorough': 'L=6 for every view; stateful views: 2 iterators L=8 and 3 iterators L=7 over 3 data rows',
@@ -247,8 +251,9 @@ def jobs(tier):
         if opts.get('kind') in ('value', 'noraise', 'dict'):
             continue
         for (R, L, nits, nsym) in cfgs_for(name.startswith(CORE), _stateful(name)):
+            core = name.startswith(CORE)
             out.append(dict(name='view/%s/R=%d/L=%d/its=%d/sym=%d' % (name, R, L, nits, nsym), func='catalogue_view',
-                            params=dict(name=name, R=R, L=L, nits=nits, nsym=nsym),
+                            params=dict(name=name, R=R, L=L, nits=nits, nsym=nsym, renew0=core),
                             budget=BQ if q else BT, validate_every=1 if q else 4, per_path=20))
     for kind in IO_KINDS:
         core = kind.startswith(('fromdicts-generator', 'csv-sort'))
